@@ -171,6 +171,9 @@ def execute(sc):
         nt_keys.append(stream_hash + '/full')
     if cfg['nonewline']:
         bump('fault_nonewline')
+    for text, it in st.lines:
+        if text is not None and len(text) >= 4096:
+            bump('probe_long_' + ('chatter_line' if isinstance(it, W.Chatter) else 'message_line') + '_4096_or_more')
     if res.exception is not None:
         add('C08/conservation', 'exception:' + type(res.exception).__name__, res.traceback[-1500:])
     # group items per expected line
